@@ -499,7 +499,8 @@ class BackendZ3(Backend):
 
     @condom
     def StringV(self, ast):
-        return z3.StringVal(ast.args[0], ctx=self._context)
+        # Z3 decodes \\u{..} escapes in string literals: keep every backslash the caller wrote a backslash
+        return z3.StringVal(ast.args[0].replace("\\", "\\u{5c}"), ctx=self._context)
 
     @condom
     def StringS(self, ast):
